@@ -504,7 +504,13 @@ qb_vsnprintf_serialize(char *serialize, size_t max_len,
 	 * argument set to QB_TRUE, so callers can honor extended setting)
 	 */
 	if ((qb_xc = strchr(serialize, QB_XC)) != NULL) {
-		*qb_xc = *(qb_xc + 1)? '|' : '\0';
+		if (*(qb_xc + 1)) {
+			*qb_xc = '|';
+		} else {
+			/* the format ends here: the arguments follow its new end */
+			*qb_xc = '\0';
+			location = (qb_xc - serialize) + 1;
+		}
 	}
 
 	format = (char *)fmt;
